@@ -72,12 +72,42 @@ Proof. vm_compute. reflexivity. Qed.
 (* every large entry is a truncation or the nearest value: never above 10^k by more than half an ulp, never below by a full ulp *)
 Definition limbs_value (l : list N) : Z := fold_right (fun x acc => Z.of_N x + 18446744073709551616 * acc) 0 l.
 
+(* POW5[0] = 5 and every entry is the square of the previous one *)
+Fixpoint squares_chain (prev : Z) (l : list Z) : bool :=
+  match l with [] => true | x :: r => (x =? prev * prev) && squares_chain x r end.
+
+Lemma squares_chain_pow : forall (l : list Z) (prev k : Z), 0 <= k -> prev = 5 ^ (2 ^ k) -> squares_chain prev l = true ->
+  forall i, (i < length l)%nat -> nth i l 0 = 5 ^ (2 ^ (k + 1 + Z.of_nat i)).
+Proof.
+  induction l as [|x r IH]; intros prev k Hk Hp Hc i Hi; cbn [length] in Hi; [lia|].
+  cbn [squares_chain] in Hc. apply andb_prop in Hc. destruct Hc as (Hx & Hr). apply Z.eqb_eq in Hx.
+  assert (Hx' : x = 5 ^ (2 ^ (k + 1))).
+  { rewrite Hx, Hp, <- Z.pow_add_r by (apply Z.pow_nonneg; lia). f_equal. rewrite Z.pow_add_r by lia. lia. }
+  destruct i as [|i]; cbn [nth].
+  - rewrite Hx'. f_equal. f_equal. lia.
+  - rewrite (IH x (k + 1) ltac:(lia) Hx' Hr i ltac:(lia)). f_equal. f_equal. lia.
+Qed.
+
 Theorem pow5_pow10_limb_tables :
   POW5_64 = map (fun i => Z.to_N (5 ^ Z.of_nat i)) (seq 0 28) /\
   POW10_64 = map (fun i => Z.to_N (10 ^ Z.of_nat i)) (seq 0 20) /\
-  map limbs_value LARGE_POW5_LIMBS = map (fun i => 5 ^ (2 ^ Z.of_nat i)) (seq 0 14) /\
+  (forall i, (i < 14)%nat -> nth i (map limbs_value LARGE_POW5_LIMBS) 0 = 5 ^ (2 ^ Z.of_nat i)) /\
+  length LARGE_POW5_LIMBS = 14%nat /\
   forallb (fun l => negb (N.eqb (last l 0%N) 0)) LARGE_POW5_LIMBS = true.       (* normalised: top limb non-zero *)
-Proof. repeat split; vm_compute; reflexivity. Qed.
+Proof.
+  split; [vm_compute; reflexivity|]. split; [vm_compute; reflexivity|].
+  split; [|split; vm_compute; reflexivity].
+  assert (H : match map limbs_value LARGE_POW5_LIMBS with x :: r => (x =? 5) && squares_chain x r | [] => false end = true)
+    by (vm_compute; reflexivity).
+  destruct (map limbs_value LARGE_POW5_LIMBS) as [|x r] eqn:Hl; [discriminate H|].
+  apply andb_prop in H. destruct H as (H5 & Hc). apply Z.eqb_eq in H5.
+  assert (Hlen : length (x :: r) = 14%nat) by (rewrite <- Hl, map_length; vm_compute; reflexivity).
+  intros i Hi. destruct i as [|i]; cbn [nth].
+  - rewrite H5. reflexivity.
+  - cbn [length] in Hlen.
+    rewrite (squares_chain_pow r x 0 ltac:(lia) ltac:(rewrite H5; reflexivity) Hc i ltac:(lia)).
+    f_equal. f_equal. lia.
+Qed.
 
 Theorem float_pow10_tables :
   F64_POW10 = map (fun i => 10 ^ Z.of_nat i) (seq 0 23) /\
